@@ -145,14 +145,14 @@ def run(ctx):
     corp = corpus_cases()
     if corp:
         problems += ioc.run_batch(ctx, corp, PROP, stats, label="k")
-    cases = access_cases(ctx, ctx.n(14, 36) if big else 9, 9 if ctx.thorough else 7, None if ctx.thorough else 60)
-    cases += gen_cases_multi(ctx, ctx.n(14, 40) if big else 8, 8 if ctx.thorough else 6)
-    cases += split_cases(ctx, ctx.n(4, 10) if big else 3, 6 if ctx.thorough else 5)
+    cases = access_cases(ctx, ctx.n(14, 26) if big else 9, 9 if ctx.thorough else 7, None if ctx.thorough else 60)
+    cases += gen_cases_multi(ctx, ctx.n(14, 30) if big else 8, 8 if ctx.thorough else 6)
+    cases += split_cases(ctx, ctx.n(4, 7) if big else 3, 6 if ctx.thorough else 5)
     for c in cases:
         c.pop("_dummy", None)
     problems += ioc.run_batch(ctx, cases, PROP, stats, query_gen=qgen, label="g")
     if ctx.thorough or escalate or problems:
-        extra = access_cases(ctx, ctx.n(8, 60), 7, 60) + gen_cases_multi(ctx, ctx.n(8, 40), 6) + split_cases(ctx, ctx.n(2, 10), 5)
+        extra = access_cases(ctx, ctx.n(8, 40), 7, 60) + gen_cases_multi(ctx, ctx.n(8, 25), 6) + split_cases(ctx, ctx.n(2, 6), 5)
         problems += ioc.run_batch(ctx, extra, PROP, stats, query_gen=qgen, with_model=False, label="s")
         ctx.extra["search"] = {"ran": True, "evaluations": len(extra), "oracle": "sequential pass of the same file (every access path must reproduce it), single-session file (append splits), particles of the sequential pass (FileGenerator)"}
     else:
